@@ -128,6 +128,9 @@ func catalogue(n *chain.Node, ctx sdk.Context, w *world) []query {
 			add("/irismod.nft.Query/Supply", &nfttypes.QuerySupplyRequest{DenomId: d.ID, Owner: u.Addr.String()}, "nft balance of "+u.Name+" in "+d.ID)
 		}
 	}
+	for _, u := range users {
+		add("/irismod.nft.Query/NFTsOfOwner", &nfttypes.QueryNFTsOfOwnerRequest{Owner: u.Addr.String()}, "nfts of "+u.Name+" in all classes")
+	}
 	for _, x := range w.nfts {
 		add("/irismod.nft.Query/NFT", &nfttypes.QueryNFTRequest{DenomId: x.Denom, TokenId: x.ID}, "nft "+x.Denom+"/"+x.ID)
 	}
@@ -150,6 +153,10 @@ func catalogue(n *chain.Node, ctx sdk.Context, w *world) []query {
 	k.Service.IterateServiceDefinitions(ctx, func(d servicetypes.ServiceDefinition) bool {
 		add("/irismod.service.Query/Definition", &servicetypes.QueryDefinitionRequest{ServiceName: d.Name}, "service definition "+d.Name)
 		add("/irismod.service.Query/Bindings", &servicetypes.QueryBindingsRequest{ServiceName: d.Name}, "service bindings of "+d.Name)
+		for _, u := range users {
+			// the owner-filtered form reads a secondary index that is not part of the genesis
+			add("/irismod.service.Query/Bindings", &servicetypes.QueryBindingsRequest{ServiceName: d.Name, Owner: u.Addr.String()}, "service bindings of "+d.Name+" owned by "+u.Name)
+		}
 		return false
 	})
 	k.Service.IterateServiceBindings(ctx, func(b servicetypes.ServiceBinding) bool {
@@ -165,6 +172,8 @@ func catalogue(n *chain.Node, ctx sdk.Context, w *world) []query {
 	})
 	// oracle
 	add("/irismod.oracle.Query/Feeds", &oracletypes.QueryFeedsRequest{}, "feeds")
+	add("/irismod.oracle.Query/Feeds", &oracletypes.QueryFeedsRequest{State: "running"}, "running feeds")
+	add("/irismod.oracle.Query/Feeds", &oracletypes.QueryFeedsRequest{State: "paused"}, "paused feeds")
 	k.Oracle.IteratorFeeds(ctx, func(f oracletypes.Feed) {
 		add("/irismod.oracle.Query/Feed", &oracletypes.QueryFeedRequest{FeedName: f.FeedName}, "feed "+f.FeedName)
 		add("/irismod.oracle.Query/FeedValue", &oracletypes.QueryFeedValueRequest{FeedName: f.FeedName}, "feed value history of "+f.FeedName)
